@@ -36,6 +36,9 @@ def dedicated():
         "fold-intvar": [D("k", B("*", I(3), I(4)), "int"), D("r1", B("+", A, V("k"))), D("r2", B(">", C, V("k")))],
         "fold-merge": [D("r1", B("+", B("+", ("lit", "signal-A", I(2)), ("lit", "signal-A", B("+", I(1), I(2)))), A))],
         "fold-typed": [D("k1", ("lit", "signal-C", I(6))), D("r1", B("*", V("k1"), A))],
+        # integer literal on the LEFT of an operation on a declared input
+        "int-left": [D("r1", B("-", I(100), A)), D("r2", B("+", I(5), C)), D("r3", B("*", I(6), Dd)), D("r4", B(">", I(7), A))],
+        "int-left-nested": [D("r1", B("*", ("paren", B("-", I(100), A)), C)), D("r2", B("+", ("paren", B("/", I(90), C)), A))],
         # fan-out >= 3 (MST wiring)
         "fanout4": [D("t1", B("+", A, C)), D("r1", B("*", V("t1"), I(2))), D("r2", B("*", V("t1"), I(3))),
                     D("r3", B("-", V("t1"), I(4))), D("r4", B(">", V("t1"), I(3)))],
